@@ -60,3 +60,16 @@ MANIFEST_ENTRY = dict(
     text='7 units: 3-block diagonal product, horizontal sums, 4x12 block product and 12x12 product for two interleaved states, incl. 8-bit variants, against exact expression DAGs for all pairs of states and all coefficient arrays.',
     note='Trusted: bridge from the C11 witness-form contracts to the uninterpreted-product form, AVX-512 intrinsic table, CBMC/cadical; Lean lemma for DAG = sum of products.')
 NATIVE_SOURCES = ['props/C14/wrappers.cpp']
+
+LEMMAS = ['sumtree3', 'sumtree4', 'dot8_term']
+def extra_checks(rn, tier, ginfos):
+    from vf import lean
+    import os, json
+    r = lean.check_lemmas(LEMMAS)
+    if r.get('lean_failed'):
+        path = os.path.join(os.environ.get('VF_REPLAY_DIR', os.path.join(os.path.dirname(os.path.dirname(os.path.dirname(os.path.abspath(__file__)))), 'replay', 'out')), PROPERTY)
+        os.makedirs(path, exist_ok=True)
+        f = os.path.join(path, 'lean-lemmas.json')
+        json.dump(dict(property=PROPERTY, obligation='Lean lemmas ' + ', '.join(LEMMAS), verifier_output=r.get('lean_output', '')), open(f, 'w'), indent=1)
+        r['violations'] = ['VIOLATION property=%s replay=%s [Lean lemma no longer accepted] no-failing-input-found' % (PROPERTY, f)]
+    return r
